@@ -4,7 +4,7 @@ P=$1; ID=$1-$2; DEST=${3:-rustzx-test/tests/seeded_demo.rs}
 cd /repo && git worktree remove --force /tmp/mut/$P 2>/dev/null; git worktree prune
 git worktree add -q --detach /tmp/mut/$P HEAD || exit 2
 cd /tmp/mut/$P && git apply /verif/seeded/$ID/patch.diff || { echo "patch does not apply"; exit 3; }
-cp /verif/seeded/$ID/demo.rs $DEST
+mkdir -p $(dirname $DEST); cp /verif/seeded/$ID/demo.rs $DEST
 mkdir -p seeded && cp /verif/seeded/$ID/patch.diff /verif/seeded/$ID/demo.rs /verif/seeded/$ID/meta.json seeded/
 rm -f /verif/seeded/$ID/confirm.json /verif/seeded/$ID/check_result.txt
 /verif/engine/seed_test.sh $P $2
